@@ -1,10 +1,8 @@
 (** Property C03 -- the parser follows the DEC/ANSI state machine.
     Only pinned statements, closed by [exact], with their assumptions printed. *)
-From Avt Require Import Model.Parser Spec.Williams Proofs.ParserTable.
+From Avt Require Import Model.Parser Spec.Williams Proofs.Inv Proofs.ParserTable Proofs.ParserInv Proofs.ParserSim.
 
-(** C03.1  For every parser state and every input character (all of N, hence every Unicode
-    scalar value) the next state, the kind of action and the entry action [clear] of the
-    regenerated [Parser::feed] table agree with Williams' diagram + the four deviations. *)
+(** C03.1  For every parser state and every input character (all of N, hence every Unicode scalar value) the next state, the kind of action and the entry action [clear] of the regenerated [Parser::feed] table agree with Williams' diagram + the four deviations. *)
 Theorem C03_table : forall (s : pstate) (c : N), trans_model s c = williams s c.
 Proof. exact parser_table_is_williams. Qed.
 Check C03_table : forall (s : pstate) (c : N), trans_model s c = williams s c.
@@ -14,3 +12,36 @@ Theorem C03_arms_wf : forall (s : pstate) (c : N), acts_wf (find_arm s (input2 c
 Proof. exact parser_arms_wf. Qed.
 Check C03_arms_wf : forall (s : pstate) (c : N), acts_wf (find_arm s (input2 c) feed_arms) = true.
 Print Assumptions C03_arms_wf.
+
+(** one step of the parser is exactly the table's transition + action (and never panics) *)
+Theorem C03_feed : forall p c, PInv p -> feedM p c = Ok (feed_step p c, feed_emit p c).
+Proof. exact feedM_char. Qed.
+Check C03_feed : forall p c, PInv p -> feedM p c = Ok (feed_step p c, feed_emit p c).
+Print Assumptions C03_feed.
+
+Theorem C03_next_state : forall p c p' f, PInv p -> feedM p c = Ok (p', f) -> pst p' = t_next (williams (pst p) c).
+Proof. exact feedM_next_state. Qed.
+Check C03_next_state : forall p c p' f, PInv p -> feedM p c = Ok (p', f) -> pst p' = t_next (williams (pst p) c).
+Print Assumptions C03_next_state.
+
+Theorem C03_ignore : forall p c p' f, PInv p -> feedM p c = Ok (p', f) -> class_of (t_kind (williams (pst p) c)) = ClsIgnore -> f = None.
+Proof. exact feedM_ignore_class. Qed.
+Check C03_ignore : forall p c p' f, PInv p -> feedM p c = Ok (p', f) -> class_of (t_kind (williams (pst p) c)) = ClsIgnore -> f = None.
+Print Assumptions C03_ignore.
+
+(** a 7-bit ESC Fe acts exactly like its 8-bit C1 counterpart *)
+Theorem C03_esc_fe : forall p c, PInv p -> (64 <= c <= 95)%N -> exists p1 p2 p3 f, feedM p 27 = Ok (p1, None) /\ feedM p1 c = Ok (p2, f) /\ feedM p (c + 64) = Ok (p3, f) /\ pst p2 = pst p3.
+Proof. exact C03_esc_fe. Qed.
+Check C03_esc_fe : forall p c, PInv p -> (64 <= c <= 95)%N -> exists p1 p2 p3 f, feedM p 27 = Ok (p1, None) /\ feedM p1 c = Ok (p2, f) /\ feedM p (c + 64) = Ok (p3, f) /\ pst p2 = pst p3.
+Print Assumptions C03_esc_fe.
+
+(** dispatch is independent of whatever was parsed before: two parsers in the same state (agreeing on the live parameters when inside a sequence) emit the same functions on every input; in particular any two parsers in ground state *)
+Theorem C03_memoryless : forall s p q, PInv p -> PInv q -> psim p q -> exists p' q' fs, runP p s = Ok (p', fs) /\ runP q s = Ok (q', fs) /\ psim p' q'.
+Proof. exact C03_memoryless_all. Qed.
+Check C03_memoryless : forall s p q, PInv p -> PInv q -> psim p q -> exists p' q' fs, runP p s = Ok (p', fs) /\ runP q s = Ok (q', fs) /\ psim p' q'.
+Print Assumptions C03_memoryless.
+
+Theorem C03_ground : forall p q, pst p = Ground -> pst q = Ground -> psim p q.
+Proof. exact psim_ground. Qed.
+Check C03_ground : forall p q, pst p = Ground -> pst q = Ground -> psim p q.
+Print Assumptions C03_ground.
